@@ -4,7 +4,7 @@ import ast
 from ..pygrammar import combinator_functions
 from .. import rules_grammar as rg
 from ..core import AnalysisError, src
-from ..pysym import SymExec, show, subterms, all_calls
+from ..pysym import SymExec, show, subterms, all_calls, guards_of
 from ..rules_pyx import N, C, A
 
 EXPLANATION = (
@@ -85,7 +85,7 @@ def r_unary_labels(repo, rep, R='R4.3'):
                 meth, recv = f[2], f[1]
                 lacking = [c for c in feats if not any(isinstance(s, ast.FunctionDef) and s.name == meth for s in cat.get(c).body)
                            and not any(isinstance(s, ast.FunctionDef) and s.name == meth for s in cat.get('Feature').body)]
-                guards = list(st.data.get('guards', {}).get(id(e[2]), ())) + [(c, pol) for c, pol, _ in st.conds]
+                guards = list(guards_of(st, e)) + [(c, pol) for c, pol, _ in st.conds]
                 guarded = any(pol and g[0] == 'call' and g[1] == N('isinstance') and g[2] and g[2][0] == recv for g, pol in guards) or \
                     any(pol and g[0] == 'call' and g[1] == N('hasattr') and g[2] and g[2][0] == recv for g, pol in guards)
                 rep.check(not lacking or guarded, 'R4.3', w(e[2]), '%s:_unary_rule_symbol:feature-method:%s' % (mod.rel, meth),
